@@ -53,6 +53,7 @@ const (
 	ErrAuthInvalidPassword        Error = "-ERR invalid password\r\n"
 	ErrAuthNeedNtPassword         Error = "-ERR Client sent AUTH, but no password is set\r\n"
 	ErrBackendClosed              Error = "-ERR redis connection closed\r\n"
+	ErrTooManyRedirects           Error = "-ERR too many cluster redirections\r\n"
 )
 
 type Error string
